@@ -30,7 +30,7 @@ pub fn run(tier: Tier, seed: u64, replay: Option<&str>) -> i32 {
         tier,
         seed,
         "exploration",
-        "the generated concurrent programs of C07 (2-4 threads on shared keys), C08/C16 (readers racing writers, flush, retirement, block reuse, cache eviction), C14 (range scans racing creation/deletion next to stable keys, > 256 keys for the re-pin path) and C18 (contention, shutdown with calls in flight, sweeper holding the last reference, full device, device failing from the k-th I/O call on both I/O paths), plus the fault-plan workloads of C09 (failed writes/fsyncs, io_uring submissions failing as a whole, bursts of > 1024 buffered entries), all re-executed in a harness + feoxdb build instrumented with AddressSanitizer (cargo +nightly, -Zsanitizer=address, system allocator, detect_leaks=0 because in-flight buffers are leaked on purpose). A last stage runs uninstrumented: DiskIO::batch_write sequences on a slow device (socket pair) whose bytes the harness compares with the submitted payloads (see campaigns.slow_device.rule). Oracle: no AddressSanitizer report in any worker (abort_on_error, per-worker log files) and no abnormal termination; the functional oracles of those checks stay on. Non-trivial: executions that are non-trivial by the rules of the underlying campaigns (overlapping calls on a key, device reads overlapping modifications, scans overlapping writers, three threads inside the store / full device / consumed fault). Evaluations = program executions under the sanitizer.",
+        "the generated concurrent programs of C07 (2-4 threads on shared keys), C08/C16 (readers racing writers, flush, retirement, block reuse, cache eviction), C14 (range scans racing creation/deletion next to stable keys, > 256 keys for the re-pin path) and C18 (contention, shutdown with calls in flight, sweeper holding the last reference, full device, device failing from the k-th I/O call on both I/O paths), plus the fault-plan workloads of C09 (failed writes/fsyncs, io_uring submissions failing as a whole, bursts of > 1024 buffered entries), all re-executed in a harness + feoxdb build instrumented with AddressSanitizer (cargo +nightly, -Zsanitizer=address, system allocator, detect_leaks=0 because in-flight buffers are leaked on purpose). Two last stages run uninstrumented: DiskIO::batch_write sequences on a slow device (socket pair) whose bytes the harness compares with the submitted payloads (see campaigns.slow_device.rule), and direct-I/O read/write sequences in a child process whose global allocator is feoxdb's default jemalloc (campaigns.direct_io_default_allocator.rule). Oracle: no AddressSanitizer report in any worker (abort_on_error, per-worker log files) and no abnormal termination; the functional oracles of those checks stay on. Non-trivial: executions that are non-trivial by the rules of the underlying campaigns (overlapping calls on a key, device reads overlapping modifications, scans overlapping writers, three threads inside the store / full device / consumed fault). Evaluations = program executions under the sanitizer.",
     );
     ev.started = started;
     ev.assumptions = vec!["AddressSanitizer sees only executed schedules; data races without a memory-safety symptom are outside its reach".into()];
@@ -139,6 +139,37 @@ pub fn run(tier: Tier, seed: u64, replay: Option<&str>) -> i32 {
         }
     }
     subs.insert("slow_device".into(), slow);
+    // default-allocator stage: direct-I/O buffers in a process whose global allocator is jemalloc
+    let mut dio = json!({"ran": false});
+    if plain.exists() {
+        let out = Command::new(&plain).args(["C20J", "--tier", tier.name()]).env("VERIF_SEED", seed.to_string()).env_remove("ASAN_OPTIONS").env_remove("FXV_ASAN").stdout(Stdio::piped()).stderr(Stdio::inherit()).output();
+        if let Ok(o) = out {
+            let text = String::from_utf8_lossy(&o.stdout).to_string();
+            for l in text.lines().filter(|l| l.starts_with("VIOLATION ") || l.starts_with("KNOWN-FINDING")) {
+                println!("{l}");
+            }
+            if let Some(l) = text.lines().find(|l| l.starts_with("C20J-SUMMARY ")) {
+                dio = serde_json::from_str(&l["C20J-SUMMARY ".len()..]).unwrap_or_default();
+                ev.evaluations += dio["executions"].as_u64().unwrap_or(0);
+                for i in 0..dio["distinct_nontrivial"].as_u64().unwrap_or(0) {
+                    ev.nontrivial.insert(0xC20D_0000 + i);
+                }
+            }
+            match o.status.code() {
+                Some(1) => {
+                    code = 1;
+                    ev.violations += 1;
+                }
+                Some(0) => {}
+                _ => {
+                    if code == 0 {
+                        code = 2;
+                    }
+                }
+            }
+        }
+    }
+    subs.insert("direct_io_default_allocator".into(), dio);
     ev.set("campaigns", serde_json::Value::Object(subs));
     if ev.samples.is_empty() {
         ev.samples.push(json!("no sample"));
